@@ -34,7 +34,7 @@ func main() {
 			// the unchanged tree violates the statement in this scenario with 2 preemptions (pool Reset racing with an
 			// endpoint creation orphans the new endpoint from later health invalidations, see the report):
 			// quick stays below that depth, thorough reaches it.
-			"ep-goc-vs-reset":           {"quick": {{0, 0}, {1, 1}}, "thorough": epSmallT},
+			"ep-goc-vs-reset":           {"quick": epSmallQ, "thorough": epSmallT},
 			"ep-goc-vs-close":           {"quick": epSmallQ, "thorough": epSmallT},
 			"ep-goc-vs-remove":          {"quick": epSmallQ, "thorough": epSmallT},
 			"ep-adopt-shared-tuple":     {"quick": epSmallQ, "thorough": epSmallT},
